@@ -20,6 +20,7 @@ import (
 	"github.com/google/gce-tcb-verifier/cmd"
 	"github.com/google/gce-tcb-verifier/cmd/output"
 	"github.com/google/gce-tcb-verifier/keys"
+	"github.com/google/gce-tcb-verifier/keys/gcpkms"
 	"github.com/google/gce-tcb-verifier/rotate"
 	"github.com/google/gce-tcb-verifier/sign/gcsca"
 	"github.com/google/gce-tcb-verifier/sign/memca"
@@ -35,6 +36,7 @@ import (
 	"verifsim/core"
 	"verifsim/keypool"
 	"verifsim/seams"
+	"verifsim/worldk"
 )
 
 // Epoch is the simulated "now" at the start of every run: after the 2 Aug 2024 provenance
@@ -43,7 +45,7 @@ var Epoch = time.Date(2025, 1, 1, 0, 0, 0, 0, time.UTC)
 
 // Config selects the shipped components an authority is assembled from.
 type Config struct {
-	KM     string // "memkm" | "localkm"
+	KM     string // "memkm" | "localkm" | "gcpkms" (real keys/gcpkms Manager+Signer over SimKMS, zero generation latency)
 	CA     string // "memca" | "gcsca" (over SimDisk) | "localca" (gcsca over storage/local)
 	ViaCLI bool   // drive the cobra commands instead of the rotate library calls
 	// LongLived: one set of key-manager / CA objects serves the whole run (a long-lived signing
@@ -77,6 +79,7 @@ type Authority struct {
 	Disk   *seams.SimDisk              // durable objects of the "gcsca" configuration
 	MemCA  *memca.CertificateAuthority // the "memca" configuration is its own store
 	Signer *nonprod.Signer             // memkm: the key service's memory (survives process restarts)
+	KMS    *worldk.SimKMS              // gcpkms: the simulated Cloud KMS (a remote service: survives crashes)
 	Dir    string                      // scratch directory (localkm keys, localca bucket root)
 	Keygen *keypool.Gen
 	Rand   io.Reader
@@ -113,6 +116,10 @@ func NewAuthority(r *core.Run, cfg Config, plan *seams.FaultPlan) *Authority {
 	a.Signer = &nonprod.Signer{Rand: a.Rand}
 	a.Disk = seams.NewSimDisk(r, plan)
 	a.MemCA = memca.Create()
+	if cfg.KM == "gcpkms" {
+		a.KMS = worldk.NewSimKMS(r)
+		a.KMS.Plan = plan
+	}
 	if cfg.KM == "localkm" || cfg.CA == "localca" {
 		d, err := os.MkdirTemp("", "verifsim-a-")
 		if err != nil {
@@ -172,6 +179,9 @@ func (a *Authority) newProcess(faulty bool) (*process, error) {
 		km := &localkm.T{T: memkm.T{Signer: s}, KeyDir: filepath.Join(a.Dir, "keys")}
 		p.km, p.mgr, p.signer = km, km, s
 		a.lastSigner = s
+	case "gcpkms":
+		km := &gcpkms.Manager{Project: "p", Location: "l", KeyRingID: "ring", KeyClient: a.KMS, IAMClient: &worldk.SimIAM{K: a.KMS}}
+		p.km, p.mgr, p.signer = km, km, &gcpkms.Signer{Manager: km}
 	default:
 		return nil, fmt.Errorf("unknown km %q", a.Cfg.KM)
 	}
@@ -223,7 +233,38 @@ func (a *Authority) caFlags() []string {
 	if a.Cfg.KM == "localkm" {
 		out = append(out, "--key_dir", filepath.Join(a.Dir, "keys"))
 	}
+	if a.Cfg.KM == "gcpkms" {
+		out = append(out, "--project", "p", "--location", "l", "--key_ring", "ring")
+	}
 	return out
+}
+
+// kmsFlags are the per-command flags of the gcpkms components.
+func (a *Authority) kmsFlags(op string) []string {
+	if a.Cfg.KM != "gcpkms" {
+		return nil
+	}
+	switch op {
+	case "bootstrap":
+		return []string{"--root_key", "root", "--signing_key", "signing", "--signing_key_operators", "user:operator@example.com"}
+	case "rotate":
+		return []string{"--signing_key", "signing"}
+	}
+	return nil
+}
+
+// kmsContext adds the gcpkms contexts the library calls expect.
+func (a *Authority) kmsContext(ctx context.Context, op string) context.Context {
+	if a.Cfg.KM != "gcpkms" {
+		return ctx
+	}
+	switch op {
+	case "bootstrap":
+		return gcpkms.NewBootstrapContext(ctx, &gcpkms.BootstrapContext{RootKeyID: "root", SigningKeyID: "signing", SigningKeyOperators: []string{"user:operator@example.com"}})
+	case "rotate":
+		return gcpkms.NewSigningKeyContext(ctx, &gcpkms.SigningKeyContext{SigningKeyID: "signing"})
+	}
+	return ctx
 }
 
 func (f Flags) args() []string {
@@ -263,7 +304,13 @@ func (a *Authority) decorator() cmd.CommandComponent {
 
 // runCLI executes one cobra command line in a fresh app (= a fresh process).
 func (a *Authority) runCLI(p *process, extra cmd.CommandComponent, args []string) error {
+	var bootC, rotC cmd.CommandComponent
+	if a.Cfg.KM == "gcpkms" {
+		bootC, rotC = &gcpkms.BootstrapContext{}, &gcpkms.SigningKeyContext{}
+	}
 	app := &cmd.AppComponents{
+		Bootstrap:       bootC,
+		Rotate:          rotC,
 		Global:          cmd.Compose(p.km, p.ca, a.decorator()),
 		SignatureRandom: a.Rand,
 		Storage:         &local.StorageClient{}, // only used to read --svsm_* files
@@ -307,6 +354,7 @@ func (a *Authority) Bootstrap(b BootArgs) (err error, crashed bool) {
 		if a.Cfg.ViaCLI {
 			args := append([]string{"bootstrap"}, b.Flags.args()...)
 			args = append(args, a.caFlags()...)
+			args = append(args, a.kmsFlags("bootstrap")...)
 			args = append(args, "--timestamp", a.Now.Format(time.RFC3339))
 			if b.RootCN != "" {
 				args = append(args, "--root_key_cn", b.RootCN)
@@ -330,7 +378,7 @@ func (a *Authority) Bootstrap(b BootArgs) (err error, crashed bool) {
 			SigningKeyCommonName: orDefault(b.SignCN, "GCE-uefi-signer"),
 			RootKeySerial:        big.NewInt(orDefaultI(b.RootSerial, 1)), SigningKeySerial: big.NewInt(orDefaultI(b.SignSerial, 2)),
 			Now: a.Now}
-		ctx = rotate.NewBootstrapContext(ctx, bc)
+		ctx = a.kmsContext(rotate.NewBootstrapContext(ctx, bc), "bootstrap")
 		ctx, err = a.initComponents(ctx, p)
 		if err != nil {
 			return err
@@ -356,6 +404,7 @@ func (a *Authority) Rotate(ra RotArgs) (err error, crashed bool) {
 		if a.Cfg.ViaCLI {
 			args := append([]string{"rotate"}, ra.Flags.args()...)
 			args = append(args, a.caFlags()...)
+			args = append(args, a.kmsFlags("rotate")...)
 			args = append(args, "--timestamp", a.Now.Format(time.RFC3339))
 			if ra.SignCN != "" {
 				args = append(args, "--signing_key_cn", ra.SignCN)
@@ -371,7 +420,7 @@ func (a *Authority) Rotate(ra RotArgs) (err error, crashed bool) {
 		}
 		skc := &rotate.SigningKeyContext{SigningKeyCommonName: orDefault(ra.SignCN, "GCE-uefi-signer"),
 			SigningKeySerial: big.NewInt(ra.SerialOverride), Now: a.Now}
-		ctx = rotate.NewSigningKeyContext(ctx, skc)
+		ctx = a.kmsContext(rotate.NewSigningKeyContext(ctx, skc), "rotate")
 		ctx, err = a.initComponents(ctx, p)
 		if err != nil {
 			return err
@@ -457,6 +506,9 @@ func (a *Authority) View() (*View, error) {
 // KeyNames lists the key version names the key service currently holds, sorted.
 func (a *Authority) KeyNames() []string {
 	var out []string
+	if a.Cfg.KM == "gcpkms" {
+		return a.KMS.LiveVersionNames()
+	}
 	if a.Cfg.KM == "localkm" {
 		es, _ := os.ReadDir(filepath.Join(a.Dir, "keys"))
 		for _, e := range es {
@@ -512,8 +564,8 @@ var _ = crypto.SHA256
 // Clone returns an independent copy of the authority's durable state (in-memory configurations
 // only: SimDisk objects, key-service memory, memca contents). The fault plan is shared.
 func (a *Authority) Clone() *Authority {
-	if a.Dir != "" {
-		panic("Clone: directory-backed authorities are not cloned")
+	if a.Dir != "" || a.KMS != nil {
+		panic("Clone: directory- or KMS-backed authorities are not cloned")
 	}
 	c := *a
 	c.Disk = a.Disk.Snapshot()
